@@ -539,3 +539,343 @@ def gen_history(rng, nops, interleave, nkeys=None):
         if rng.random() < 0.5:
             evs.append(['next', c])
     return {'events': evs, 'keys': case_keys(evs)}
+
+# ====================================================================== compiled programs (Engine/DbProg.v)
+# A case of kind 'dbprog':
+#   clauses: [{'name', 'nv', 'head': [terms over 0..nv-1], 'body': [goals]}]   (clauses of one predicate are contiguous)
+#   goal:    ['u', a, b]  A = B  |  ['c', name, args]  name(args)  |  ['as', front, t]  |  ['re', t]  |  ['ra', t]
+#   queries: [[name, args over 0..nq-1, nq]]   run one after the other to exhaustion on the same engine
+#   reads:   [[name, arity]]                   stored facts printed at the end (match_dynamic with new variables)
+# The program text is compiled by the real compiler; the model runs the same clauses (Engine/RunDbProg.v).
+
+def pl_term(t):
+    k = t[0]
+    if k == 'a':
+        return t[1]
+    if k == 'i':
+        return str(t[1])
+    if k == 'v':
+        return 'V%d' % t[1]
+    if k == 'f':
+        if t[1] == '.' and len(t[2]) == 2:
+            return '[%s|%s]' % (pl_term(t[2][0]), pl_term(t[2][1]))
+        if not t[2]:
+            raise ValueError('zero-argument compound is not expressible in source text')
+        return '%s(%s)' % (t[1], ','.join(pl_term(a) for a in t[2]))
+    raise ValueError(t)
+
+def pl_goal(g):
+    k = g[0]
+    if k == 'u':
+        return '%s = %s' % (pl_term(g[1]), pl_term(g[2]))
+    if k == 'c':
+        return pl_term(['f', g[1], g[2]] if g[2] else ['a', g[1]])
+    if k == 'as':
+        return '%s(%s)' % ('asserta' if g[1] else 'assertz', pl_term(g[2]))
+    if k == 're':
+        return 'retract(%s)' % pl_term(g[1])
+    if k == 'ra':
+        return 'retractall(%s)' % pl_term(g[1])
+    raise ValueError(g)
+
+def prog_source(case):
+    lines = []
+    for c in case['clauses']:
+        head = pl_term(['f', c['name'], c['head']] if c['head'] else ['a', c['name']])
+        if c['body']:
+            lines.append('%s :- %s.' % (head, ', '.join(pl_goal(g) for g in c['body'])))
+        else:
+            lines.append('%s.' % head)
+    return '\n'.join(lines) + '\n'
+
+def g_goal(g):
+    k = g[0]
+    if k == 'u':
+        return '(GUnify %s %s)' % (g_term(g[1]), g_term(g[2]))
+    if k == 'c':
+        return '(GCall %s %s)' % (g_str(g[1]), g_list([g_term(a) for a in g[2]]))
+    if k == 'as':
+        return '(GAssert %s %s)' % (g_bool(g[1]), g_term(g[2]))
+    if k == 're':
+        return '(GRetract %s)' % g_term(g[1])
+    if k == 'ra':
+        return '(GRetractAll %s)' % g_term(g[1])
+    raise ValueError(g)
+
+def prog_model_expr(case):
+    cls = ['(mkcl %s %s %s %s)' % (g_str(c['name']), g_nat(c['nv']), g_list([g_term(a) for a in c['head']]),
+                                   g_list([g_goal(g) for g in c['body']])) for c in case['clauses']]
+    qs = ['(%s, %s, %s)' % (g_str(n), g_list([g_term(a) for a in args]), g_nat(nq)) for n, args, nq in case['queries']]
+    reads = ['(%s, %s)' % (g_str(n), g_nat(ar)) for n, ar in case['reads']]
+    return '(run_prog 200 80 %d %s %s %s)' % (PROG_MODEL_WORK, g_list(cls), g_list(qs), g_list(reads))
+
+PROG_MODEL_WORK = 3000      # search activations the model may perform in one case (more: 'stuck', no comparison)
+PROG_ASSERT_CAP = 3500      # > PROG_MODEL_WORK (an assert is an activation): a run the model completes stays below
+PROG_ANSWER_CAP = 4000      # > PROG_MODEL_WORK: a run the model completes has fewer answers
+
+class AssertBudget(Exception):
+    pass
+
+def prog_run_impl(case):
+    from yldprolog import engine as E, compiler
+    yp = E.YP()
+    src = prog_source(case)
+    yp.load_script_from_string(compiler.compile_prolog_from_string(src))
+    out_q = []
+    count = [0]
+    real_assert = yp.assert_fact
+    def counting_assert(*a, **kw):
+        count[0] += 1
+        if count[0] > PROG_ASSERT_CAP:
+            raise AssertBudget()
+        return real_assert(*a, **kw)
+    import time
+    t_end = time.time() + 5.0
+    real_md = yp.match_dynamic
+    def timed_match_dynamic(*a, **kw):
+        if time.time() > t_end:
+            raise AssertBudget()
+        return real_md(*a, **kw)
+    # budgets only (instance attributes, the engine's code is untouched): exponential programs are cut off
+    yp.assert_fact = counting_assert
+    yp.match_dynamic = timed_match_dynamic
+    try:
+        for name, args, nq in case['queries']:
+            T = terms.ImplTerms(yp, nq)
+            objs = [T.build(a) for a in args]
+            answers = []
+            g = yp.query(name, objs)
+            for _ in g:
+                answers.append(canon_args([terms.term_obs(T.read(o)) for o in objs]))
+                if len(answers) > PROG_ANSWER_CAP or (len(answers) % 64 == 0 and time.time() > t_end):
+                    g.close()
+                    return {'end': 'too-many-answers', 'queries': out_q}
+            out_q.append(answers)
+        reads = []
+        for n, ar in case['reads']:
+            T = terms.ImplTerms(yp, ar)
+            vs = T.vars[:ar]
+            rows = []
+            for _ in real_md(yp.atom(n), vs):
+                rows.append(canon_args([terms.term_obs(T.read(v)) for v in vs]))
+                if len(rows) > 20000:
+                    return {'end': 'read-back-does-not-end', 'queries': out_q}
+            reads.append(rows)
+    except AssertBudget:
+        return {'end': 'budget', 'queries': out_q}
+    except RecursionError:
+        return {'end': 'deep', 'queries': out_q}
+    except Exception as ex:
+        if type(ex).__name__ == 'CaseTimeout':
+            raise
+        return {'end': 'raised', 'what': type(ex).__name__ + ': ' + str(ex)[:200], 'queries': out_q}
+    return {'end': 'done', 'queries': out_q, 'reads': reads, 'asserts': count[0]}
+
+def prog_compare(case, io, mo):
+    """io: dict of prog_run_impl; mo: [[['answers', [...]] | ['stuck'] ...], reads | ['stuck']]"""
+    mq, mr, mn = mo
+    stuck = (mr == ['stuck']) or any(q == ['stuck'] for q in mq)
+    if not isinstance(io, dict):
+        if stuck and io and io[0] == 'harness-timeout':
+            return None
+        return 'implementation side: %r' % (io,)
+    if stuck and io['end'] in ('deep', 'budget', 'too-many-answers'):
+        return None
+    for i, q in enumerate(mq):
+        if q == ['stuck']:
+            return None            # cyclic term / fuel: outside the specified domain from here on
+        want = [canon_args(a) for a in q[1]]
+        if i >= len(io['queries']):
+            return 'query %d %r: implementation ended with %s (%s); model answers %r' % (i, case['queries'][i][0], io['end'], io.get('what', ''), want)
+        if io['queries'][i] != want:
+            return 'query %d %s: implementation answers %r, model %r' % (i, case['queries'][i][0], io['queries'][i], want)
+    if io['end'] == 'too-many-answers' and len(io['queries']) < len(mq) and len(mq[len(io['queries'])][1]) > 1000:
+        return None             # cut off by the harness's own time limit on a long (but finite) enumeration
+    if io['end'] == 'budget' and isinstance(mn, int) and mn > 150:
+        return None             # cut off by the harness's own time limit on a long (but finite) run
+    if io['end'] != 'done':
+        return 'implementation ended with %s (%s), the model ran all queries (%r Answer objects created)' % (io['end'], io.get('what', ''), mn)
+    if io['asserts'] != mn:
+        return 'the implementation stored %d facts during the run, the model %r' % (io['asserts'], mn)
+    for (n, ar), rows, mrows in zip(case['reads'], io['reads'], mr):
+        want = [canon_args(a) for a in mrows]
+        if rows != want:
+            return 'stored facts of %s/%d after the run: implementation %r, model %r' % (n, ar, rows, want)
+    return None
+
+def prog_oracle(case, io):
+    if not isinstance(io, dict):
+        return None
+    if io['end'] == 'raised':
+        return 'a database operation issued from compiled code raised: %s' % io.get('what')
+    if io['end'] == 'read-back-does-not-end':
+        return io['end']
+    return None
+
+def prog_describe(case):
+    return {'program': prog_source(case), 'queries': [[n, [terms.show_term(a) for a in args]] for n, args, _ in case['queries']],
+            'reads': case['reads']}
+
+def prog_shrink(case):
+    cls = case['clauses']
+    for ci, c in enumerate(cls):
+        for gi in range(len(c['body'])):
+            c2 = dict(c); c2['body'] = c['body'][:gi] + c['body'][gi + 1:]
+            if not c2['body'] and c['name'] == 'init':
+                continue
+            n = dict(case); n['clauses'] = cls[:ci] + [c2] + cls[ci + 1:]
+            yield n
+    if len(case['queries']) > 1:
+        for qi in range(len(case['queries'])):
+            n = dict(case); n['queries'] = case['queries'][:qi] + case['queries'][qi + 1:]
+            yield n
+
+def prog_nontrivial(case, io):
+    """a goal that enumerates a predicate (a call or a retract with a variable in its pattern) is followed, in the
+    same body, by an update of that predicate, and the query that runs it had facts to enumerate"""
+    if not isinstance(io, dict) or io['end'] != 'done':
+        return False
+    def key(t):
+        return callable_key(t)
+    for c in case['clauses']:
+        gens = set()
+        for g in c['body']:
+            if g[0] == 'c' and any(terms.term_vars(a) for a in g[2]):
+                gens.add((g[1], len(g[2])))
+            elif g[0] == 're':
+                if key(g[1]) in gens:
+                    return True
+                if terms.term_vars(g[1]) and key(g[1]):
+                    gens.add(key(g[1]))
+            elif g[0] in ('as', 'ra'):
+                t = g[2] if g[0] == 'as' else g[1]
+                if key(t) in gens:
+                    return True
+    return False
+
+PROG_DYN = [('p', 1), ('q', 1), ('c', 1), ('flag', 0), ('r', 2)]
+
+def gen_dbprog(rng, loopy=0.6):
+    nv = rng.choice([2, 3, 3, 4])
+    K = ('p', 1) if rng.random() < 0.65 else rng.choice(PROG_DYN)
+    def key():
+        return K if rng.random() < 0.75 else rng.choice(PROG_DYN)
+    consts = [['a', 'a'], ['a', 'b'], ['i', 1], ['i', 2], ['f', 'f', [['a', 'a']]], ['a', '[]']]
+    def term(pvar, depth=1):
+        q = rng.random()
+        if q < pvar:
+            return ['v', rng.randrange(nv)]
+        if q < pvar + 0.12 and depth > 0:
+            f, n = rng.choice([('f', 1), ('g', 2), ('s', 1), ('f', 1)])
+            return ['f', f, [term(pvar, depth - 1) for _ in range(n)]]
+        return rng.choice(consts)
+    def goal_term(k, pvar):
+        return ['f', k[0], [term(pvar) for _ in range(k[1])]] if k[1] else ['a', k[0]]
+    clauses = []
+    used = set()
+    # initial facts
+    init = []
+    for _ in range(rng.choice([0, 1, 2, 3, 3, 4, 5])):
+        k = key(); used.add(k)
+        init.append(['as', rng.random() < 0.2, goal_term(k, 0.1)])
+    clauses.append({'name': 'init', 'nv': nv, 'head': [], 'body': init or [['u', ['a', 'a'], ['a', 'a']]]})
+    helpers = []
+    if rng.random() < 0.35:
+        k = key(); used.add(k)
+        hb = rng.choice([
+            [['as', False, goal_term(k, 0.7)]],
+            [['re', goal_term(k, 0.8)]],
+            [['c', k[0], [term(0.8) for _ in range(k[1])]]],
+            [['c', k[0], [term(0.8) for _ in range(k[1])]], ['as', rng.random() < 0.5, goal_term(k, 0.6)]],
+        ])
+        ncl = rng.choice([1, 1, 2])
+        for i in range(ncl):
+            clauses.append({'name': 'h', 'nv': nv, 'head': [term(0.7)], 'body': hb if i == 0 else []})
+        helpers.append(('h', 1))
+    h = rng.choice([0, 1, 1, 2])
+    body = []
+    ngen = 0
+    n = rng.choice([2, 3, 4, 5, 6, 7])
+    while len(body) < n:
+        q = rng.random()
+        k = key(); used.add(k)
+        if q < 0.24:
+            pv = rng.choice([0.5, 0.9, 1.0])
+            if pv > 0.4 and ngen >= 3:
+                pv = 0.0
+            else:
+                ngen += 1
+            body.append(['c', k[0], [term(pv) for _ in range(k[1])]])
+        elif q < 0.44:
+            if ngen >= 3:
+                body.append(['re', goal_term(k, 0.0)])
+            else:
+                ngen += 1
+                body.append(['re', goal_term(k, rng.choice([0.4, 0.8, 1.0]))])
+        elif q < 0.70:
+            body.append(['as', rng.random() < 0.35, goal_term(k, rng.choice([0.2, 0.6, 0.9]))])
+        elif q < 0.77:
+            body.append(['ra', goal_term(k, rng.choice([0.3, 0.8]))])
+        elif q < 0.87:
+            x = rng.randrange(nv); t = term(0.4)
+            if t[0] == 'f' and x in terms.term_vars(t):
+                t = rng.choice(consts)
+            body.append(['u', ['v', x], t])
+        elif q < 0.92 and helpers and ngen < 3:
+            ngen += 1
+            body.append(['c', 'h', [term(0.8)]])
+        elif q < 0.97:
+            # a goal that arrives in a bound variable
+            gv = ['v', nv - 1]
+            gt = goal_term(k, 0.6)
+            if (nv - 1) in terms.term_vars(gt):
+                gt = goal_term(k, 0.0)
+            body.append(['u', gv, gt])
+            if ngen < 3:
+                ngen += 1
+                body.append(rng.choice([['as', False, gv], ['re', gv], ['ra', gv]]))
+            else:
+                body.append(rng.choice([['as', False, gv], ['ra', gv]]))
+        else:
+            body.append(rng.choice([['as', False, ['v', rng.randrange(nv)]], ['re', ['i', 3]], ['c', 'nofacts', [term(0.5)]]]))
+    head = [['v', i] for i in range(h)]
+    if rng.random() < loopy:
+        body.append(['u', ['a', 'a'], ['a', 'b']])       # fail: a failure-driven loop
+        clauses.append({'name': 'm', 'nv': nv, 'head': head, 'body': body})
+        clauses.append({'name': 'm', 'nv': nv, 'head': head, 'body': []})
+    else:
+        clauses.append({'name': 'm', 'nv': nv, 'head': head, 'body': body})
+    queries = [['init', [], 0], ['m', [['v', i] for i in range(h)], h]]
+    if rng.random() < 0.3:
+        queries.append(['m', [['v', i] if rng.random() < 0.6 else rng.choice(consts[:4]) for i in range(h)], h])
+    reads = sorted(used | {K})
+    return {'kind': 'dbprog', 'clauses': clauses, 'queries': queries, 'reads': [list(k) for k in reads]}
+
+def dbprog_corpus():
+    v = lambda i: ['v', i]
+    f = lambda n, *xs: ['f', n, list(xs)]
+    I = lambda n: ['i', n]
+    a, b = ['a', 'a'], ['a', 'b']
+    fail = ['u', a, b]
+    def case(clauses, queries, reads):
+        return {'kind': 'dbprog', 'clauses': [dict(zip(('name', 'nv', 'head', 'body'), c)) for c in clauses], 'queries': queries, 'reads': reads}
+    L = []
+    # D15: t(X) :- assertz(p(1)), p(X), assertz(p(2)).
+    L.append(case([('t', 1, [v(0)], [['as', False, f('p', I(1))], ['c', 'p', [v(0)]], ['as', False, f('p', I(2))]])],
+                  [['t', [v(0)], 1]], [['p', 1]]))
+    # counter: bump :- retract(c(N)), assertz(c(s(N))), fail.  bump.
+    L.append(case([('init', 0, [], [['as', False, f('c', I(0))], ['as', False, f('c', I(0))]]),
+                   ('bump', 1, [], [['re', f('c', v(0))], ['as', False, f('c', f('s', v(0)))], fail]), ('bump', 0, [], [])],
+                  [['init', [], 0], ['bump', [], 0], ['bump', [], 0]], [['c', 1]]))
+    # drain with duplicates, nested retract on the same predicate, a fact re-asserted meanwhile
+    L.append(case([('init', 0, [], [['as', False, f('p', a)], ['as', False, f('p', a)], ['as', False, f('p', b)]]),
+                   ('m', 2, [], [['re', f('p', v(0))], ['re', f('p', a)], ['as', False, f('p', a)], ['as', True, f('q', v(0))], fail]), ('m', 0, [], [])],
+                  [['init', [], 0], ['m', [], 0]], [['p', 1], ['q', 1]]))
+    # D3/D4/D5 from compiled code: zero-argument facts, unknown predicates, goals in bound variables
+    L.append(case([('m', 2, [], [['as', False, ['a', 'flag']], ['c', 'flag', []], ['re', ['a', 'flag']], ['ra', f('nope', v(0))],
+                                ['u', v(1), f('p', I(7))], ['as', False, v(1)], ['u', v(0), f('p', v(0))] if False else ['c', 'p', [v(0)]]])],
+                  [['m', [], 0]], [['flag', 0], ['p', 1], ['nope', 1]]))
+    # non-ground facts used twice from the asserting clause (C13 from compiled code)
+    L.append(case([('m', 2, [v(0)], [['as', False, f('p', v(1))], ['c', 'p', [a]], ['c', 'p', [b]], ['c', 'p', [v(0)]]])],
+                  [['m', [v(0)], 1]], [['p', 1]]))
+    return L
